@@ -1,5 +1,6 @@
 #![allow(dead_code)]
 mod engine;
+mod evgen;
 mod gen;
 mod instr;
 mod lowlevel;
@@ -52,7 +53,9 @@ macro_rules! dispatch {
 
 fn main() {
     // crate panics are caught and reported through their payload; keep stderr quiet
-    std::panic::set_hook(Box::new(|_| {}));
+    if std::env::var("VF_PANIC").is_err() {
+        std::panic::set_hook(Box::new(|_| {}));
+    }
     let args: Vec<String> = std::env::args().collect();
     if args.len() < 2 {
         eprintln!("usage: vf <Cxx> [--tier quick|thorough] [--replay file]");
@@ -88,6 +91,8 @@ fn main() {
     let code = dispatch!(id.as_str(), &ctx, &known, replay.as_deref(),
         "C03" => c03,
         "C06" => c06,
+        "C08" => c08,
+        "C09" => c09,
         "C11" => c11,
         "C12" => c12,
         "C16" => c16,
